@@ -424,9 +424,16 @@ func (h *Handler) HandleGetDirSize(ctx *Context, path string) (int64, error) {
 	log := slog.With(slog.String("path", path))
 	log.DebugContext(ctx, "Get directory size")
 
+	// directory size is about real files: walk the underlying filesystem, otherwise a directory below one that is
+	// literally named like a virtual image prefix is opened as a generated image and its files are not counted.
+	walkFs := h.Fs
+	if u, ok := walkFs.(interface{ Unwrap() afero.Fs }); ok {
+		walkFs = u.Unwrap()
+	}
+
 	var size int64
 	// detach afero.Lstater interface to resolve symlinks in afero.Walk.
-	_ = afero.Walk(&fsOnly{h.Fs}, path, func(path string, info fs.FileInfo, err error) error {
+	_ = afero.Walk(&fsOnly{walkFs}, path, func(path string, info fs.FileInfo, err error) error {
 		if err != nil {
 			log.WarnContext(ctx, "Skipping path because of error",
 				slog.String("path", path), logutil.ErrorAttr(err))
